@@ -21,8 +21,8 @@ from framework import Case
 from impl import dltype
 
 PROP = "C16"
-GENERATED = ['Wrapper', 'Classes', 'SrcDecorate', 'SrcHints', 'HintLoop', 'Decorate', 'ClassDecor']  # generated files this check's tie depends on
-LEAN_MODULES = ["Properties.C16", "Properties.CoreWrap", "Properties.CoreClasses", "Properties.Prov.Decorate", "Properties.Prov.Hints", "Properties.CoreHints", "Properties.CoreDecorate", "Properties.CoreClassDecor"]
+GENERATED = ['Wrapper', 'Classes', 'SrcDecorate', 'SrcHints', 'HintLoop', 'Decorate', 'ClassDecor', 'Resolve']  # generated files this check's tie depends on
+LEAN_MODULES = ["Properties.C16", "Properties.CoreWrap", "Properties.CoreClasses", "Properties.Prov.Decorate", "Properties.Prov.Hints", "Properties.CoreHints", "Properties.CoreDecorate", "Properties.CoreClassDecor", "Properties.CoreResolve"]
 LEVEL = "proof"
 RULE = (
     "exhaustive over a family of signature shapes: 1-3 parameters x kinds {positional-only, positional-or-keyword, keyword-only} x "
